@@ -605,26 +605,48 @@ func checkRoleMinting(c *km.Ctx, s *km.Sem) {
 		ok := rc.State.All(func(k km.Conj) bool { return s.Holds(k, autoOK) && s.Holds(k, autoErrNil) })
 		r.Add("R-C08-4", km.FuncName(parse), "parameters returned", posOf(c, rc.Ret), "identity passed isAutomationUser (true, no error)", clipS(rc.State.String(), 300), ok)
 	}
-	// Role field store uses the checked identity
+	// Role field store uses the checked identity (the store may sit in a constructor the parser calls)
 	nRole := 0
+	type roleVal struct {
+		v  ssa.Value
+		at ssa.Instruction
+	}
+	var roles []roleVal
 	km.Instrs(parse, func(in ssa.Instruction) {
-		st, ok := in.(*ssa.Store)
-		if !ok {
-			return
+		if st, ok := in.(*ssa.Store); ok {
+			if fa, ok := st.Addr.(*ssa.FieldAddr); ok && fieldNameOf(fa) == "Role" {
+				roles = append(roles, roleVal{st.Val, in})
+			}
 		}
-		fa, ok := st.Addr.(*ssa.FieldAddr)
-		if !ok || fieldNameOf(fa) != "Role" {
-			return
+		if cl, ok := in.(*ssa.Call); ok {
+			g := km.StaticCallee(cl.Common())
+			if g == nil || g.Blocks == nil || !c.InModule(g) || g.Signature.Results().Len() != 1 || km.NamedTypeOf(g.Signature.Results().At(0).Type()) != KMD+".roleRequestingCertGenParams" {
+				return
+			}
+			args := km.CallArgs(cl.Common())
+			km.Instrs(g, func(i2 ssa.Instruction) {
+				if st, ok := i2.(*ssa.Store); ok {
+					if fa, ok := st.Addr.(*ssa.FieldAddr); ok && fieldNameOf(fa) == "Role" {
+						for i, p := range g.Params {
+							if km.Unwrap(st.Val) == ssa.Value(p) && i < len(args) {
+								roles = append(roles, roleVal{args[i], in})
+							}
+						}
+					}
+				}
+			})
 		}
+	})
+	for _, rv := range roles {
 		nRole++
 		same := false
 		for _, ci := range km.CallsIn(parse) {
-			if km.CalleeFull(ci.Common()) == RS+"isAutomationUser" && km.Unwrap(km.CallArgs(ci.Common())[1]) == km.Unwrap(st.Val) {
+			if km.CalleeFull(ci.Common()) == RS+"isAutomationUser" && km.Unwrap(km.CallArgs(ci.Common())[1]) == km.Unwrap(rv.v) {
 				same = true
 			}
 		}
-		r.Add("R-C08-4", km.FuncName(parse), "Role := checked identity", posOf(c, in), "the identity stored as Role is the value passed to isAutomationUser", km.ValStr(st.Val), same)
-	})
+		r.Add("R-C08-4", km.FuncName(parse), "Role := checked identity", posOf(c, rv.at), "the identity stored as Role is the value passed to isAutomationUser", km.ValStr(rv.v), same)
+	}
 	if nRole == 0 {
 		r.AnchorLost("R-C08-4", "store of roleRequestingCertGenParams.Role in parseRoleCertGenParams")
 	}
